@@ -373,6 +373,7 @@ func (fr *ctFrame) declassified(e ast.Expr) bool {
 		return false
 	}
 	txt := fr.text(e)
+	var shape string
 	for _, d := range fr.ct.DeclassText {
 		i := strings.LastIndex(d, " : ")
 		dt, reason := d, ""
@@ -383,8 +384,148 @@ func (fr *ctFrame) declassified(e ast.Expr) bool {
 			fr.an.declUsed[fr.fi.Key+": "+txt] = reason
 			return true
 		}
+		// the same expression up to a consistent renaming of local variables and parameters
+		de, err := parseSpecExpr(dt)
+		if err != nil {
+			continue
+		}
+		// only for expressions built around a call to a package-level function (e.g. a ConstantTimeCmp verdict): small
+		// expressions over locals alone (`acc == 0`, `&s`, `x.Bytes()`) must match literally, or a renaming could declassify anything
+		if !fr.hasPkgFuncCall(de) {
+			continue
+		}
+		if shape == "" {
+			shape = fr.shapeOf(e, true)
+		}
+		if fr.shapeOf(de, false) == shape {
+			fr.an.declUsed[fr.fi.Key+": "+txt] = reason + " (matched up to renaming of locals: contract text `" + dt + "`)"
+			return true
+		}
 	}
 	return false
+}
+
+// hasPkgFuncCall: does the (contract text) expression call a package-level function (pkg.F(...) or F(...))?
+func (fr *ctFrame) hasPkgFuncCall(e ast.Expr) bool {
+	found := false
+	ast.Inspect(e, func(n ast.Node) bool {
+		c, ok := n.(*ast.CallExpr)
+		if !ok {
+			return true
+		}
+		switch f := c.Fun.(type) {
+		case *ast.Ident:
+			if _, ok := fr.fi.Pkg.Types.Scope().Lookup(f.Name).(*types.Func); ok {
+				found = true
+			}
+		case *ast.SelectorExpr:
+			if id, ok := f.X.(*ast.Ident); ok {
+				for _, imp := range fr.fi.Pkg.Types.Imports() {
+					if imp.Name() == id.Name {
+						if _, ok := imp.Scope().Lookup(f.Sel.Name).(*types.Func); ok {
+							found = true
+						}
+					}
+				}
+			}
+		}
+		return true
+	})
+	return found
+}
+
+// shapeOf prints an expression with every local variable/parameter replaced by its first-occurrence number, so that two
+// expressions that differ only by a consistent renaming of locals have the same shape. typed: identifiers are resolved
+// through the type checker (source expressions); otherwise (contract text) a bare identifier is a local unless it names
+// something in the package scope, the universe or an imported package.
+func (fr *ctFrame) shapeOf(e ast.Expr, typed bool) string {
+	num := map[string]int{}
+	isLocal := func(id *ast.Ident) bool {
+		if typed {
+			o := fr.info.Uses[id]
+			if o == nil {
+				o = fr.info.Defs[id]
+			}
+			v, ok := o.(*types.Var)
+			return ok && !v.IsField() && !isPkgLevel(v)
+		}
+		if fr.fi.Pkg.Types.Scope().Lookup(id.Name) != nil || types.Universe.Lookup(id.Name) != nil {
+			return false
+		}
+		for _, imp := range fr.fi.Pkg.Types.Imports() {
+			if imp.Name() == id.Name {
+				return false
+			}
+		}
+		return true
+	}
+	var sb strings.Builder
+	var rec func(n ast.Expr)
+	rec = func(n ast.Expr) {
+		switch x := n.(type) {
+		case nil:
+		case *ast.Ident:
+			if isLocal(x) {
+				k, ok := num[x.Name]
+				if !ok {
+					k = len(num) + 1
+					num[x.Name] = k
+				}
+				fmt.Fprintf(&sb, "$%d", k)
+			} else {
+				sb.WriteString(x.Name)
+			}
+		case *ast.BasicLit:
+			sb.WriteString(x.Value)
+		case *ast.ParenExpr:
+			sb.WriteString("(")
+			rec(x.X)
+			sb.WriteString(")")
+		case *ast.SelectorExpr:
+			rec(x.X)
+			sb.WriteString("." + x.Sel.Name)
+		case *ast.IndexExpr:
+			rec(x.X)
+			sb.WriteString("[")
+			rec(x.Index)
+			sb.WriteString("]")
+		case *ast.SliceExpr:
+			rec(x.X)
+			sb.WriteString("[")
+			rec(x.Low)
+			sb.WriteString(":")
+			rec(x.High)
+			if x.Max != nil {
+				sb.WriteString(":")
+				rec(x.Max)
+			}
+			sb.WriteString("]")
+		case *ast.StarExpr:
+			sb.WriteString("*")
+			rec(x.X)
+		case *ast.UnaryExpr:
+			sb.WriteString(x.Op.String())
+			rec(x.X)
+		case *ast.BinaryExpr:
+			rec(x.X)
+			sb.WriteString(" " + x.Op.String() + " ")
+			rec(x.Y)
+		case *ast.CallExpr:
+			rec(x.Fun)
+			sb.WriteString("(")
+			for i, a := range x.Args {
+				if i > 0 {
+					sb.WriteString(", ")
+				}
+				rec(a)
+			}
+			sb.WriteString(")")
+		default:
+			fmt.Fprintf(&sb, "<%T>", n)
+		}
+	}
+	rec(e)
+	return sb.String()
 }
 
 // ---------- expressions ----------
